@@ -104,7 +104,6 @@ theorem map_getD_range_take (xs : List Id) (n : Nat) (h : n ≤ xs.length) :
   · have : k < xs.length := by omega
     simp [hk, this]
   · simp [hk]
-    omega
 
 /-- the kernel-level predicate holds of the model, for every function and every well-formed
 matrix (stored zeros and any entry order allowed) -/
